@@ -9,7 +9,8 @@ from props import e1
 
 PROP = "C06"
 DIR = None
-BASE = {"a.txt": b"A", "d": DIR, "d/b.txt": b"B", "e": DIR, "e/c.txt": b"C", "sp ace_\u00fc.v2 (R&D)+#1,'x'": DIR, "sp ace_\u00fc.v2 (R&D)+#1,'x'/s.txt": b"S"}
+BASE = {"a.txt": b"A", "d": DIR, "d/b.txt": b"B", "e": DIR, "e/c.txt": b"C", "sp ace_\u00fc.v2 (R&D)+#1,'x'": DIR, "sp ace_\u00fc.v2 (R&D)+#1,'x'/s.txt": b"S",
+        "Cafe\u0301 \u212b": DIR, "Cafe\u0301 \u212b/n.txt": b"N"}   # (a folder name that is not in Unicode NFC form: decomposed accent, Angstrom sign)
 
 
 def enabled(tree, meta):
@@ -29,7 +30,7 @@ def enabled(tree, meta):
         m2 = dict(meta, cmds=meta["cmds"] + 1)
         cont = meta["cmds"] + 1 < meta["max_cmds"]
         cands = [ops.create("", ["xxh64"]), ops.create("", ["c4", "md5"]), ops.create("d", ["md5"]), ops.create("e", ["xxh64"]),
-                 ops.create("sp ace_\u00fc.v2 (R&D)+#1,'x'", ["md5"])]
+                 ops.create("sp ace_\u00fc.v2 (R&D)+#1,'x'", ["md5"]), ops.create("Cafe\u0301 \u212b", ["md5"])]
         cands += [ops.create("", ["xxh64"], sf=[f]) for f in ("a.txt", "d/b.txt") if f in med]
         if meta.get("rich"):
             cands += [ops.create("", ["sha1"], n=True), ops.create("", ["xxh64"], sf=["d"]), ops.create("", ["md5"], dr=True)]
